@@ -78,7 +78,8 @@ def configs(name, rng, p, groups):
     if name == "CoxEstimator":
         base = dict(afrac=0.1, l1_ratio=0.7, method="efron", ties=True)
         var = [("breslow_ties", dict(method="breslow")), ("efron_no_ties", dict(ties=False)),
-               ("breslow_no_ties", dict(method="breslow", ties=False)), ("l1_ratio_1", dict(l1_ratio=1.0)),
+               ("breslow_no_ties", dict(method="breslow", ties=False)), ("efron_ties_nonadjacent", dict(ties="nonadjacent")),
+               ("l1_ratio_1", dict(l1_ratio=1.0)),
                ("l1_ratio_0", dict(l1_ratio=0.0)), ("l1_ratio_0.2", dict(l1_ratio=0.2)), ("alpha_small", dict(afrac=0.01))]
     if name == "GeneralizedLinearEstimator":
         base = dict(combo="Quadratic+L1")
